@@ -3,9 +3,10 @@ package main
 // C02 — served file content stays inside the root and never includes hidden files.
 //
 // Real in-process casket sites (casket.Start on loopback) rooted in a fixture under
-// /var/tmp/verif-C02-<pid>/root whose origin Casketfile lies INSIDE the root (so hideCasketfile
+// /var/tmp/verif-C02-fix-<pid>/root whose origin Casketfile lies INSIDE the root (so hideCasketfile
 // applies) and which also hides files through `internal` (the only directive that appends to
-// SiteConfig.HiddenFiles). Every regular file of the fixture carries a unique token, so the
+// SiteConfig.HiddenFiles). Multi-site Casketfiles (c02MTable, c02MStart) are written to disk and
+// loaded from there; a third tree (c02STable) holds symbolic links. Every regular file of the fixture carries a unique token, so the
 // provenance of every returned byte run is decidable; token files also exist OUTSIDE the root.
 // Requests are raw request lines (no client-side cleaning) over an adversarial segment alphabet.
 // The fixture tree is a Go table: it is written to disk, re-read from disk (stat + lstat
@@ -35,6 +36,8 @@ import (
 	"strconv"
 	"strings"
 	"syscall"
+	"time"
+	"net/http"
 
 	"github.com/andybalholm/brotli"
 	"github.com/golang/snappy"
@@ -50,11 +53,88 @@ import (
 
 type c02Ent struct {
 	Path string // cleaned rooted path inside the root
-	Kind byte   // 'd' directory, 'f' regular file, 'h' hard link (no symlinks: the jail is lexical, as http.Dir is)
+	Kind byte   // 'd' directory, 'f' regular file, 'h' hard link, 'l' symbolic link (only in the tree of the contract-only `symlink` site)
 	Tok  string // token name of a regular file ("" for directories / links)
 	Enc  string // "", gz, br, zst: the file's bytes are the token text in that coding
-	To   string // link target: rooted path inside the root
+	To   string // hard link: rooted path inside the tree; symbolic link: the link text
 }
+
+// c02MTable is the tree the MULTI-SITE Casketfiles live in (relative to <base>/m). The origin
+// Casketfile is /www/Casketfile; the sites' roots are sub-trees of this tree in every relation to
+// the directory of the Casketfile: /www contains it directly, / contains it in a sub-directory,
+// /www/pub (below) and /other (beside) do not contain it, /ww is a sibling directory whose name is
+// a string prefix of "www" (hideCasketfile's strings.HasPrefix test is true for it).
+var c02MTable = []c02Ent{
+	{Path: "/", Kind: 'd'},
+	{Path: "/top.txt", Kind: 'f', Tok: "MTOP"},
+	{Path: "/hid.txt", Kind: 'f', Tok: "MTOPHID"},
+	{Path: "/www", Kind: 'd'},
+	{Path: "/www/Casketfile", Kind: 'f', Tok: "MCASKET"},
+	{Path: "/www/a.txt", Kind: 'f', Tok: "MA"},
+	{Path: "/www/a.txt.gz", Kind: 'f', Tok: "MAGZ", Enc: "gz"},
+	{Path: "/www/hid.txt", Kind: 'f', Tok: "MHID"},
+	{Path: "/www/pub", Kind: 'd'},
+	{Path: "/www/pub/p.txt", Kind: 'f', Tok: "MP"},
+	{Path: "/www/pub/Casketfile", Kind: 'f', Tok: "MPUBCASKET"},
+	{Path: "/www/pub/hid.txt", Kind: 'f', Tok: "MPUBHID"},
+	{Path: "/www/links", Kind: 'd'},
+	{Path: "/www/links/hard-casket", Kind: 'h', To: "/www/Casketfile"},
+	{Path: "/www/links/l.txt", Kind: 'f', Tok: "ML"},
+	{Path: "/ww", Kind: 'd'},
+	{Path: "/ww/Casketfile", Kind: 'f', Tok: "MWWCASKET"},
+	{Path: "/ww/q.txt", Kind: 'f', Tok: "MQ"},
+	{Path: "/ww/w", Kind: 'd'},
+	{Path: "/ww/w/Casketfile", Kind: 'f', Tok: "MWWWCASKET"}, // what TrimPrefix(".../www/Casketfile", ".../ww") names
+	{Path: "/other", Kind: 'd'},
+	{Path: "/other/Casketfile", Kind: 'f', Tok: "MOTHERCASKET"},
+	{Path: "/other/o.txt", Kind: 'f', Tok: "MO"},
+	{Path: "/other/idx", Kind: 'd'},
+	{Path: "/other/idx/index.html", Kind: 'f', Tok: "MOIDX"},
+}
+
+const c02MOrigin = "/www/Casketfile" // the multi-site origin Casketfile, relative to <base>/m
+
+var c02MInternal = []string{"/hid.txt"}
+var c02MArchiveTypes = []string{"zip", "tar.gz"}
+
+// the roots a multi-site Casketfile may give its sites, with their relation to the origin
+var c02MRoots = []string{"/www", "/", "/www/pub", "/other", "/ww"}
+
+func c02MRelation(root string) string {
+	switch root {
+	case "/www":
+		return "root-contains-casketfile"
+	case "/":
+		return "root-contains-casketfile-in-subdirectory"
+	case "/ww":
+		return "root-is-sibling-with-prefix-name"
+	}
+	return "root-does-not-contain-casketfile"
+}
+
+// c02STable is the tree of the contract-only `symlink` site (relative to <base>/s/root): http.Dir
+// follows symbolic links, so the lexical jail of the model does not describe it; the cases on it
+// are judged against the executable property only.
+var c02STable = []c02Ent{
+	{Path: "/", Kind: 'd'},
+	{Path: "/Casketfile", Kind: 'f', Tok: "SCASKET"},
+	{Path: "/in.txt", Kind: 'f', Tok: "SIN"},
+	{Path: "/secret.txt", Kind: 'f', Tok: "SSECRET"},
+	{Path: "/d", Kind: 'd'},
+	{Path: "/d/f.txt", Kind: 'f', Tok: "SDF"},
+	{Path: "/l", Kind: 'd'},
+	{Path: "/l/to-in", Kind: 'l', To: "../in.txt"},
+	{Path: "/l/to-dir", Kind: 'l', To: "../d"},
+	{Path: "/l/to-casket", Kind: 'l', To: "../Casketfile"},
+	{Path: "/l/to-secret", Kind: 'l', To: "../secret.txt"},
+	{Path: "/l/to-out", Kind: 'l', To: "../../out/o.txt"},
+	{Path: "/l/to-outdir", Kind: 'l', To: "../../out"},
+	{Path: "/l/to-abs", Kind: 'l', To: "@/s/out/o2.txt"}, // "@": the absolute path of the fixture's base directory
+	{Path: "/l/dangling", Kind: 'l', To: "../nope"},
+	{Path: "/l/plain.txt", Kind: 'f', Tok: "SPLAIN"},
+}
+
+var c02SInternal = []string{"/secret.txt"}
 
 var c02Table = []c02Ent{
 	{Path: "/", Kind: 'd'},
@@ -145,15 +225,38 @@ const (
 	c02UnknownID = 2 // a TOK…z9q run that is not in the table
 )
 
-var c02OutsideToks = []string{"OUTSIDE", "ROOTX", "ROOTTXT"}
+var c02OutsideToks = []string{"OUTSIDE", "ROOTX", "ROOTTXT", "SOUT", "SOUTB"}
 
 func c02TokText(name string) string { return "TOK" + name + "z9q" }
 
-func c02All() []c02Ent {
-	all := append([]c02Ent{}, c02Table...)
+// a fixture tree: a table, the identities it gives its entries (IDBase + index in path order; a
+// hard link has its target's), and — once written — where it is on disk and what the response
+// headers of a file answer look like for each of its regular files (ETag, Content-Length,
+// Last-Modified: every regular file has a size and a modification time of its own, so a header
+// alone identifies the file it describes).
+type c02Tree struct {
+	Name    string
+	Table   []c02Ent
+	IDBase  uint64
+	Dir     string
+	etag    map[string]uint64
+	size    map[string]uint64
+	lastmod map[string]uint64
+}
+
+var (
+	c02Main = &c02Tree{Name: "root", Table: c02Table, IDBase: 10}
+	c02M    = &c02Tree{Name: "m", Table: c02MTable, IDBase: 200}
+	c02S    = &c02Tree{Name: "s", Table: c02STable, IDBase: 400}
+)
+
+func (t *c02Tree) all() []c02Ent {
+	all := append([]c02Ent{}, t.Table...)
 	sort.Slice(all, func(i, j int) bool { return all[i].Path < all[j].Path })
 	return all
 }
+
+func c02All() []c02Ent { return c02Main.all() }
 
 // c02Node is the model's view of an entry: cleaned path, directory bit, identity (what
 // os.SameFile compares; hard links share it).
@@ -163,37 +266,219 @@ type c02Node struct {
 	ID   uint64
 }
 
-// c02Nodes derives identities from the table: every entry gets its own identity (10 + index in
-// path order), a hard link has its target's.
-func c02Nodes() []c02Node {
-	all := c02All()
+// nodes derives identities from the table: every entry gets its own identity (IDBase + index in
+// path order), a hard link has its target's. A symbolic link is what os.Stat sees through it: the
+// directory bit and identity of its target if that lies inside the tree, identity 1 (content from
+// outside the root) if it does not; a dangling link cannot be opened and is no node.
+func (t *c02Tree) nodes() []c02Node {
+	all := t.all()
 	own := map[string]uint64{}
+	kind := map[string]byte{}
 	for i, e := range all {
-		own[e.Path] = uint64(10 + i)
+		own[e.Path] = t.IDBase + uint64(i)
+		kind[e.Path] = e.Kind
 	}
 	var out []c02Node
 	for _, e := range all {
 		n := c02Node{Path: e.Path, Dir: e.Kind == 'd', ID: own[e.Path]}
-		if e.Kind == 'h' {
+		switch e.Kind {
+		case 'h':
 			n.ID = own[e.To]
+		case 'l':
+			// resolved below a sentinel directory, so that climbing above the root shows
+			tgt := path.Join("/_", path.Dir(e.Path), e.To)
+			inside := !strings.HasPrefix(e.To, "@") && strings.HasPrefix(tgt+"/", "/_/")
+			tgt = path.Clean("/" + strings.TrimPrefix(tgt, "/_"))
+			if !inside {
+				n.ID, n.Dir = c02OutsideID, strings.HasSuffix(e.Path, "dir") // the outside targets named …dir are directories
+			} else if id, ok := own[tgt]; ok {
+				n.ID, n.Dir = id, kind[tgt] == 'd'
+				if n.Dir { // what lies below the directory is reachable below the link too
+					for _, d := range all {
+						if strings.HasPrefix(d.Path, tgt+"/") && d.Kind != 'l' {
+							out = append(out, c02Node{Path: e.Path + strings.TrimPrefix(d.Path, tgt), Dir: d.Kind == 'd', ID: own[d.Path]})
+						}
+					}
+				}
+			}
+			// else a dangling link: an entry of its directory that cannot be opened; it keeps an identity of its own
 		}
 		out = append(out, n)
 	}
+	sort.Slice(out, func(i, j int) bool { return out[i].Path < out[j].Path })
 	return out
 }
 
-func c02TokIDs() map[string]uint64 {
+func c02Nodes() []c02Node { return c02Main.nodes() }
+
+// tokIDs: token text -> identity, for the tokens of this tree; every other token of the fixture
+// (another tree, the files outside the roots) is content from outside the root (1).
+func (t *c02Tree) tokIDs() map[string]uint64 {
 	m := map[string]uint64{}
-	all := c02All()
-	for i, e := range all {
-		if e.Tok != "" {
-			m[c02TokText(e.Tok)] = uint64(10 + i)
+	for _, o := range []*c02Tree{c02Main, c02M, c02S} {
+		for _, e := range o.Table {
+			if e.Tok != "" {
+				m[c02TokText(e.Tok)] = c02OutsideID
+			}
 		}
 	}
-	for _, t := range c02OutsideToks {
-		m[c02TokText(t)] = c02OutsideID
+	for _, tk := range c02OutsideToks {
+		m[c02TokText(tk)] = c02OutsideID
+	}
+	for i, e := range t.all() {
+		if e.Tok != "" {
+			m[c02TokText(e.Tok)] = t.IDBase + uint64(i)
+		}
 	}
 	return m
+}
+
+func c02TokIDs() map[string]uint64 { return c02Main.tokIDs() }
+
+// c02Etag is staticfiles.calculateEtag, written again.
+func c02Etag(fi os.FileInfo) string {
+	return `"` + strconv.FormatInt(fi.ModTime().Unix(), 36) + strconv.FormatInt(fi.Size(), 36) + `"`
+}
+
+// write puts the tree on disk below dir: contents are the token text (in the entry's coding),
+// padded so that every regular file has a size of its own, with a modification time of its own.
+func (t *c02Tree) write(base, dir string) error {
+	t.Dir = dir
+	all := t.all()
+	sizes := map[int]bool{}
+	for i, e := range all {
+		p := filepath.Join(dir, filepath.FromSlash(e.Path))
+		switch e.Kind {
+		case 'd':
+			if err := os.MkdirAll(p, 0o755); err != nil {
+				return err
+			}
+		case 'f':
+			content := c02TokText(e.Tok)
+			if path.Base(e.Path) == "Casketfile" {
+				content = "# " + content + "\n"
+			} else if strings.HasSuffix(e.Path, ".html") {
+				content = "<html>" + content + "</html>"
+			}
+			var data string
+			for pad := i; ; pad += len(all) {
+				data = c02Encode(e.Enc, content+strings.Repeat(" ", pad))
+				if e.Path == c02MOrigin && t == c02M {
+					data = c02MCasketfileText("")
+				}
+				if !sizes[len(data)] {
+					break
+				}
+			}
+			sizes[len(data)] = true
+			if err := os.WriteFile(p, []byte(data), 0o644); err != nil {
+				return err
+			}
+		}
+	}
+	for _, e := range all { // links after their targets
+		p := filepath.Join(dir, filepath.FromSlash(e.Path))
+		var err error
+		switch e.Kind {
+		case 'h':
+			err = os.Link(filepath.Join(dir, filepath.FromSlash(e.To)), p)
+		case 'l':
+			to := e.To
+			if strings.HasPrefix(to, "@") {
+				to = base + to[1:]
+			}
+			err = os.Symlink(to, p)
+		}
+		if err != nil {
+			return err
+		}
+	}
+	for i, e := range all {
+		if e.Kind == 'f' {
+			if err := os.Chtimes(filepath.Join(dir, filepath.FromSlash(e.Path)), c02Mtime(t, i), c02Mtime(t, i)); err != nil {
+				return err
+			}
+		}
+	}
+	return t.stat(nil)
+}
+
+func c02Mtime(t *c02Tree, i int) time.Time {
+	return time.Unix(1000000000+int64(t.IDBase)*100000+int64(i)*3607, 0)
+}
+
+// stat fills the header maps from the files as they are on disk; outside lists files outside the
+// tree whose headers stand for content from outside the root.
+func (t *c02Tree) stat(outside []string) error {
+	t.etag, t.size, t.lastmod = map[string]uint64{}, map[string]uint64{}, map[string]uint64{}
+	put := func(p string, id uint64) error {
+		fi, err := os.Stat(p)
+		if err != nil {
+			return err
+		}
+		for _, m := range []struct {
+			m map[string]uint64
+			k string
+		}{{t.etag, c02Etag(fi)}, {t.size, strconv.FormatInt(fi.Size(), 10)}, {t.lastmod, fi.ModTime().UTC().Format(http.TimeFormat)}} {
+			if old, ok := m.m[m.k]; ok && old != id {
+				return fmt.Errorf("%s: header value %s does not identify the file", p, m.k)
+			}
+			m.m[m.k] = id
+		}
+		return nil
+	}
+	for _, o := range outside {
+		if err := put(o, c02OutsideID); err != nil {
+			return err
+		}
+	}
+	for i, e := range t.all() {
+		if e.Kind == 'f' {
+			if err := put(filepath.Join(t.Dir, filepath.FromSlash(e.Path)), t.IDBase+uint64(i)); err != nil {
+				return err
+			}
+		}
+	}
+	return nil
+}
+
+// hdrIDs: the identities of the files a response's headers describe (2: a file answer whose
+// header matches no file of the fixture). Content-Length only counts on a file answer.
+func (t *c02Tree) hdrIDs(h http.Header) []uint64 {
+	seen := map[uint64]bool{}
+	fileAnswer := h.Get("Etag") != "" || h.Get("Last-Modified") != "" || h.Get("Content-Encoding") != "" || h.Get("Accept-Ranges") != ""
+	look := func(m map[string]uint64, v string) {
+		if v == "" {
+			return
+		}
+		if id, ok := m[v]; ok {
+			seen[id] = true
+		} else {
+			seen[c02UnknownID] = true
+		}
+	}
+	look(t.etag, h.Get("Etag"))
+	look(t.lastmod, h.Get("Last-Modified"))
+	if fileAnswer {
+		look(t.size, h.Get("Content-Length"))
+	}
+	var out []uint64
+	for id := range seen {
+		out = append(out, id)
+	}
+	sort.Slice(out, func(i, j int) bool { return out[i] < out[j] })
+	return out
+}
+
+// c02MCasketfileText is the content of the multi-site origin Casketfile for a configuration:
+// always the same size (and, after c02WriteMCasketfile, the same modification time), so that the
+// headers of an answer carrying it stay recognisable.
+func c02MCasketfileText(conf string) string {
+	s := "# " + c02TokText("MCASKET") + "\n" + conf
+	if len(s) > 5999 {
+		panic("multi-site Casketfile too long")
+	}
+	return s + strings.Repeat("#", 5999-len(s)) + "\n"
 }
 
 func c02Encode(enc, s string) string {
@@ -210,6 +495,8 @@ func c02Encode(enc, s string) string {
 
 type c02Fix struct {
 	base, root string
+	mbase      string // the tree of the multi-site Casketfiles
+	sroot      string // the root of the symlink site
 	err        string
 }
 
@@ -231,60 +518,60 @@ func c02Fixture() *c02Fix {
 	base := fmt.Sprintf("/var/tmp/verif-C02-fix-%d", os.Getpid())
 	os.RemoveAll(base)
 	root := filepath.Join(base, "root")
-	f := &c02Fix{base: base, root: root}
+	f := &c02Fix{base: base, root: root, mbase: filepath.Join(base, "m"), sroot: filepath.Join(base, "s", "root")}
 	c02F = f
 	fail := func(err error) *c02Fix { f.err = err.Error(); return f }
-	all := c02All()
-	for _, e := range all {
-		p := filepath.Join(root, filepath.FromSlash(e.Path))
-		var err error
-		switch e.Kind {
-		case 'd':
-			err = os.MkdirAll(p, 0o755)
-		case 'f':
-			content := c02TokText(e.Tok)
-			if e.Path == "/Casketfile" {
-				content = "# " + content + "\n"
-			} else if strings.HasSuffix(e.Path, ".html") {
-				content = "<html>" + content + "</html>"
-			}
-			err = os.WriteFile(p, []byte(c02Encode(e.Enc, content)), 0o644)
-		}
-		if err != nil {
-			return fail(err)
-		}
-	}
-	for _, e := range all { // links after their targets
-		p := filepath.Join(root, filepath.FromSlash(e.Path))
-		var err error
-		switch e.Kind {
-		case 'h':
-			err = os.Link(filepath.Join(root, filepath.FromSlash(e.To)), p)
-		}
-		if err != nil {
-			return fail(err)
-		}
-	}
-	if err := writeFixture(base, map[string]string{
-		"outside/o.txt": c02TokText("OUTSIDE"), "rootx/x.txt": c02TokText("ROOTX"), "root.txt": c02TokText("ROOTTXT"),
-		"outside/Casketfile": "# " + c02TokText("OUTSIDE") + "\n",
-	}); err != nil {
-		return fail(err)
-	}
 	// a reaper removes the fixture when this process is gone (however it ends)
 	reap := exec.Command("sh", "-c", fmt.Sprintf("while kill -0 %d 2>/dev/null; do sleep 1; done; rm -rf %s", os.Getpid(), base))
 	reap.SysProcAttr = &syscall.SysProcAttr{Setsid: true}
 	reap.Start()
-	if msg := c02VerifyDisk(root); msg != "" {
-		f.err = "fixture on disk differs from the table: " + msg
+	outside := map[string]string{
+		"outside/o.txt": c02TokText("OUTSIDE"), "rootx/x.txt": c02TokText("ROOTX"), "root.txt": c02TokText("ROOTTXT"),
+		"outside/Casketfile": "# " + c02TokText("OUTSIDE") + "\n",
+		"s/out/o.txt": c02TokText("SOUT"), "s/out/o2.txt": c02TokText("SOUTB"),
+	}
+	for i, name := range []string{"outside/o.txt", "rootx/x.txt", "root.txt", "outside/Casketfile", "s/out/o.txt", "s/out/o2.txt"} {
+		outside[name] += strings.Repeat(" ", 300+7*i) // sizes no file of a tree has
+	}
+	if err := writeFixture(base, outside); err != nil {
+		return fail(err)
+	}
+	var outs []string
+	for name := range outside {
+		outs = append(outs, filepath.Join(base, name))
+	}
+	sort.Strings(outs)
+	for i, o := range outs {
+		tm := time.Unix(900000000+int64(i)*4001, 0)
+		os.Chtimes(o, tm, tm)
+	}
+	for _, t := range []struct {
+		t   *c02Tree
+		dir string
+	}{{c02Main, root}, {c02M, f.mbase}, {c02S, f.sroot}} {
+		if err := t.t.write(base, t.dir); err != nil {
+			return fail(err)
+		}
+		if err := t.t.stat(outs); err != nil {
+			return fail(err)
+		}
+		if msg := c02VerifyDisk(t.t); msg != "" {
+			return fail(fmt.Errorf("fixture on disk differs from the table (%s): %s", t.t.Name, msg))
+		}
 	}
 	return f
 }
 
-// c02VerifyDisk re-reads the tree (kinds and stat identities; a symlink anywhere is an error)
-// and compares its shape with c02Nodes(): same paths, same directory bits, same identity partition.
-func c02VerifyDisk(root string) string {
-	want := c02Nodes()
+// c02VerifyDisk re-reads the tree (kinds and stat identities, symbolic links followed as http.Dir
+// follows them; a symbolic link in a tree whose table has none is an error) and compares its
+// shape with the table's nodes: same paths, same directory bits, same identity partition.
+func c02VerifyDisk(t *c02Tree) string {
+	root := t.Dir
+	want := t.nodes()
+	links := false
+	for _, e := range t.Table {
+		links = links || e.Kind == 'l'
+	}
 	type dn struct {
 		dir bool
 		ino uint64
@@ -294,13 +581,26 @@ func c02VerifyDisk(root string) string {
 		if err != nil {
 			return err
 		}
-		if !li.IsDir() && !li.Mode().IsRegular() {
-			return fmt.Errorf("%s is neither a directory nor a regular file", p)
-		}
 		rel, _ := filepath.Rel(root, p)
 		jp := "/" + filepath.ToSlash(rel)
 		if rel == "." {
 			jp = "/"
+		}
+		if li.Mode()&os.ModeSymlink != 0 && links {
+			fi, err := os.Stat(p)
+			if err != nil { // dangling: the link itself
+				got[jp] = dn{dir: false, ino: li.Sys().(*syscall.Stat_t).Ino}
+				return nil
+			}
+			real, _ := filepath.EvalSymlinks(p)
+			if !strings.HasPrefix(real+"/", root+"/") {
+				got[jp] = dn{dir: fi.IsDir(), ino: 0}
+				return nil
+			}
+			li = fi
+		}
+		if !li.IsDir() && !li.Mode().IsRegular() {
+			return fmt.Errorf("%s is neither a directory nor a regular file", p)
 		}
 		got[jp] = dn{dir: li.IsDir(), ino: li.Sys().(*syscall.Stat_t).Ino}
 		return nil
@@ -308,15 +608,35 @@ func c02VerifyDisk(root string) string {
 	if err != nil {
 		return err.Error()
 	}
-	if len(got) != len(want) {
-		return fmt.Sprintf("%d entries on disk, %d in the table", len(got), len(want))
+	wanted := map[string]bool{}
+	for _, n := range want {
+		wanted[n.Path] = true
+	}
+	for p := range got {
+		if !wanted[p] {
+			return p + " is on disk, not in the table"
+		}
 	}
 	ino2id := map[uint64]uint64{}
 	id2ino := map[uint64]uint64{}
 	for _, n := range want {
 		g, ok := got[n.Path]
+		if !ok && links { // below a symbolic link to a directory: the walk does not go there
+			if fi, err := os.Stat(filepath.Join(root, filepath.FromSlash(n.Path))); err == nil {
+				g, ok = dn{dir: fi.IsDir(), ino: fi.Sys().(*syscall.Stat_t).Ino}, true
+			}
+		}
 		if !ok {
 			return "missing " + n.Path
+		}
+		if g.dir != n.Dir {
+			return "kind of " + n.Path
+		}
+		if (g.ino == 0) != (n.ID == c02OutsideID) {
+			return "inside/outside of " + n.Path
+		}
+		if g.ino == 0 {
+			continue
 		}
 		if x, ok := ino2id[g.ino]; ok && x != n.ID {
 			return "identity of " + n.Path
@@ -325,9 +645,6 @@ func c02VerifyDisk(root string) string {
 			return "identity of " + n.Path
 		}
 		ino2id[g.ino], id2ino[n.ID] = n.ID, g.ino
-		if g.dir != n.Dir {
-			return "kind of " + n.Path
-		}
 	}
 	return ""
 }
@@ -347,7 +664,7 @@ func c02Browse(site string) (scope string, types []string) {
 		return "/dir", []string{"zip", "tar.gz"}
 	case "prefix-browse":
 		return "/", nil
-	case "origin-sub", "origin-out", "origin-rootx":
+	case "origin-sub", "origin-out", "origin-rootx", "symlink":
 		return "/", []string{"zip"}
 	}
 	return "", nil
@@ -367,7 +684,12 @@ func c02Site(kind string) (*liveSite, error) {
 	}
 	httpserver.CaseSensitivePath = false
 	body := "root " + fx.root + "\n"
-	for _, p := range c02Internal {
+	internal := c02Internal
+	origin := filepath.Join(fx.base, c02Origin(kind))
+	if kind == "symlink" {
+		body, internal, origin = "root "+fx.sroot+"\n", c02SInternal, filepath.Join(fx.sroot, "Casketfile")
+	}
+	for _, p := range internal {
 		body += "internal " + p + "\n"
 	}
 	switch kind {
@@ -375,7 +697,7 @@ func c02Site(kind string) (*liveSite, error) {
 		body += "browse / {\n servearchive\n}\n"
 	case "scoped":
 		body += "browse /dir {\n servearchive zip tar.gz\n}\n"
-	case "origin-sub", "origin-out", "origin-rootx":
+	case "origin-sub", "origin-out", "origin-rootx", "symlink":
 		body += "browse / {\n servearchive zip\n}\n"
 	}
 	casket.Quiet = true
@@ -386,7 +708,7 @@ func c02Site(kind string) (*liveSite, error) {
 		}
 		text = "127.0.0.1:0/pre {\n" + body + "}\n"
 	}
-	inst, err := casket.Start(casket.CasketfileInput{Contents: []byte(text), Filepath: filepath.Join(fx.base, c02Origin(kind)), ServerTypeName: "http"})
+	inst, err := casket.Start(casket.CasketfileInput{Contents: []byte(text), Filepath: origin, ServerTypeName: "http"})
 	if err != nil {
 		return nil, err
 	}
@@ -401,6 +723,176 @@ func c02Site(kind string) (*liveSite, error) {
 	return s, nil
 }
 
+// ---- multi-site Casketfiles --------------------------------------------------------------------
+// One Casketfile, written to <base>/m/www/Casketfile and loaded from there, declaring 2-3 sites
+// (host names s0.c02.test, s1.c02.test, … in declaration order) on one port or on several, each
+// with a root that is a sub-tree of <base>/m. httpserver.hideCasketfile runs ONCE, after the
+// `root` directives, over the list of all site configs.
+
+type c02MEl struct {
+	Root   string `json:"root"`             // the site root relative to <base>/m: one of c02MRoots
+	Spell  int    `json:"spell,omitempty"`  // how the root directive spells it: 0 cleaned, 1 trailing slash, 2 with "/./", 3 with "x/../"; 4: NO root directive, the root is the default one (httpserver.Root, as the -root flag sets it)
+	Port   int    `json:"port,omitempty"`   // port group: sites of the same group share a listener
+	Keys   int    `json:"keys,omitempty"`   // addresses on the block (1 if 0): every address is a site config of its own
+	Browse bool   `json:"browse,omitempty"` // browse / with servearchive zip tar.gz
+}
+
+func (e c02MEl) keys() int {
+	if e.Keys > 1 {
+		return e.Keys
+	}
+	return 1
+}
+
+// c02MSiteOf: the block the pos-th site config comes from (site configs are saved address by
+// address, block by block).
+func c02MSiteOf(conf []c02MEl, pos int) (c02MEl, bool) {
+	for _, e := range conf {
+		if pos < e.keys() {
+			return e, true
+		}
+		pos -= e.keys()
+	}
+	return c02MEl{}, false
+}
+
+func c02MAbsRoot(fx *c02Fix, e c02MEl) string {
+	r := fx.mbase
+	if e.Root != "/" {
+		r += e.Root
+	}
+	switch e.Spell {
+	case 1:
+		return r + "/"
+	case 2:
+		return fx.mbase + "/." + strings.TrimPrefix(r, fx.mbase)
+	case 3:
+		return fx.mbase + "/x/.." + strings.TrimPrefix(r, fx.mbase)
+	}
+	return r
+}
+
+type c02MInst struct {
+	key   string
+	inst  *casket.Instance
+	ports []int
+}
+
+var c02MCur *c02MInst
+
+func c02FreePorts(n int) ([]int, error) {
+	var ls []net.Listener
+	var ports []int
+	defer func() {
+		for _, l := range ls {
+			l.Close()
+		}
+	}()
+	for i := 0; i < n; i++ {
+		l, err := net.Listen("tcp", "127.0.0.1:0")
+		if err != nil {
+			return nil, err
+		}
+		ls = append(ls, l)
+		ports = append(ports, l.Addr().(*net.TCPAddr).Port)
+	}
+	return ports, nil
+}
+
+// c02MText renders the Casketfile of a configuration for the given ports.
+func c02MText(fx *c02Fix, conf []c02MEl, ports []int) string {
+	var sb strings.Builder
+	site := 0
+	for _, e := range conf {
+		var keys []string
+		for k := 0; k < e.keys(); k++ {
+			keys = append(keys, fmt.Sprintf("http://s%d.c02.test:%d", site, ports[e.Port]))
+			site++
+		}
+		sb.WriteString(strings.Join(keys, ", ") + " {\n")
+		if e.Spell != 4 {
+			sb.WriteString("\troot " + c02MAbsRoot(fx, e) + "\n")
+		}
+		for _, p := range c02MInternal {
+			sb.WriteString("\tinternal " + p + "\n")
+		}
+		if e.Browse {
+			sb.WriteString("\tbrowse / {\n\t\tservearchive " + strings.Join(c02MArchiveTypes, " ") + "\n\t}\n")
+		}
+		sb.WriteString("}\n")
+	}
+	return sb.String()
+}
+
+// c02MStart writes the configuration's Casketfile to disk, reads it back and starts an instance
+// from what it read, with the file's path as the origin. One multi-site instance lives at a time
+// (the generator emits the cases of a configuration together).
+func c02MStart(conf []c02MEl) (*c02MInst, error) {
+	kb, _ := json.Marshal(conf)
+	if c02MCur != nil && c02MCur.key == string(kb) {
+		return c02MCur, nil
+	}
+	if c02MCur != nil {
+		c02MCur.inst.Stop()
+		c02MCur = nil
+	}
+	fx := c02Fixture()
+	if fx.err != "" {
+		return nil, fmt.Errorf("%s", fx.err)
+	}
+	httpserver.CaseSensitivePath = false
+	casket.Quiet = true
+	groups := 0
+	for _, e := range conf {
+		if e.Port < 0 || e.Port > 3 {
+			return nil, fmt.Errorf("port group %d", e.Port)
+		}
+		if e.Port+1 > groups {
+			groups = e.Port + 1
+		}
+	}
+	origin := filepath.Join(fx.mbase, filepath.FromSlash(c02MOrigin))
+	httpserver.Root = httpserver.DefaultRoot
+	for _, e := range conf {
+		if e.Spell == 4 { // the sites without a root directive share the default root
+			if httpserver.Root != httpserver.DefaultRoot && httpserver.Root != c02MAbsRoot(fx, e) {
+				return nil, fmt.Errorf("two default roots in one configuration")
+			}
+			httpserver.Root = c02MAbsRoot(fx, e)
+		}
+	}
+	defer func() { httpserver.Root = httpserver.DefaultRoot }()
+	var lastErr error
+	for try := 0; try < 5; try++ {
+		ports, err := c02FreePorts(groups)
+		if err != nil {
+			return nil, err
+		}
+		if err := os.WriteFile(origin, []byte(c02MCasketfileText(c02MText(fx, conf, ports))), 0o644); err != nil {
+			return nil, err
+		}
+		idx := 0
+		for i, e := range c02M.all() {
+			if e.Path == c02MOrigin {
+				idx = i
+			}
+		}
+		os.Chtimes(origin, c02Mtime(c02M, idx), c02Mtime(c02M, idx))
+		loaded, err := os.ReadFile(origin)
+		if err != nil {
+			return nil, err
+		}
+		inst, err := casket.Start(casket.CasketfileInput{Contents: loaded, Filepath: origin, ServerTypeName: "http"})
+		if err != nil {
+			lastErr = err
+			continue
+		}
+		c02MCur = &c02MInst{key: string(kb), inst: inst, ports: ports}
+		return c02MCur, nil
+	}
+	return nil, lastErr
+}
+
 // ---------------------------------------------------------------------------------------------
 // observation
 
@@ -410,6 +902,10 @@ type c02In struct {
 	Target string `json:"target"` // raw request-target (path, may carry ?query)
 	AE     string `json:"ae,omitempty"`
 	JSON   bool   `json:"json,omitempty"` // Accept: application/json
+	// Site == "multi": the Casketfile (blocks in declaration order) and the site config (position in
+	// httpContext.siteConfigs) the request is sent to, with that site's Host header
+	Multi []c02MEl `json:"multi,omitempty"`
+	Pos   int      `json:"pos,omitempty"`
 }
 
 type c02Member struct {
@@ -425,8 +921,11 @@ type c02Obs struct {
 	CT      string   `json:"ct,omitempty"`
 	Kind    int      `json:"kind"` // 0 plain, 1 listing, 2 archive
 	IDs     []uint64 `json:"ids,omitempty"`
+	HIDs    []uint64 `json:"header_ids,omitempty"` // files the ETag / Last-Modified / Content-Length headers describe
+	Hdr     string   `json:"headers,omitempty"`
 	Toks    []string `json:"tokens,omitempty"`
 	Names   []string `json:"names,omitempty"`
+	Counts  []uint64 `json:"counts,omitempty"` // HTML listing: the numbers of directories and of files it announces
 	BodyLen int      `json:"len"`
 	Err     string   `json:"err,omitempty"`
 	Note    string   `json:"note,omitempty"`
@@ -521,26 +1020,87 @@ var c02MimeToType = map[string]string{
 	"application/tar+snappy": "tar.sz", "application/tar+zstd": "tar.zst",
 }
 
-var c02NameRe = regexp.MustCompile(`<span class="name">([^<]*)</span>`)
+// a row of the HTML listing: the link target and the label of an entry
+var c02RowRe = regexp.MustCompile(`(?s)<tr class="file">.*?<a href="([^"]*)">.*?<span class="name">([^<]*)</span>`)
+var c02CountRe = regexp.MustCompile(`<b>(\d+)</b> director(?:y|ies)</span>\s*<span class="meta-item"><b>(\d+)</b> file`)
+
+// c02ItemName: the entry an item's link points at ("./name" or "./name/", escaped as URL.String does)
+func c02ItemName(href string) string {
+	u, err := url.PathUnescape(href)
+	if err != nil {
+		u = href
+	}
+	return strings.TrimSuffix(strings.TrimPrefix(u, "./"), "/")
+}
+
+// c02Target: where a request of the input goes — the listener, the Host header, the tree the
+// site's root is a sub-tree of.
+func c02Target(in *c02In) (addr, host string, tree *c02Tree, err error) {
+	if in.Site == "multi" {
+		el, ok := c02MSiteOf(in.Multi, in.Pos)
+		if !ok {
+			return "", "", nil, fmt.Errorf("no site config %d in the multi-site Casketfile", in.Pos)
+		}
+		mi, err := c02MStart(in.Multi)
+		if err != nil {
+			return "", "", nil, err
+		}
+		port := mi.ports[el.Port]
+		return fmt.Sprintf("127.0.0.1:%d", port), fmt.Sprintf("s%d.c02.test:%d", in.Pos, port), c02M, nil
+	}
+	st, err := c02Site(in.Site)
+	if err != nil {
+		return "", "", nil, err
+	}
+	tree = c02Main
+	if in.Site == "symlink" {
+		tree = c02S
+	}
+	return st.addr, st.addr, tree, nil
+}
 
 func c02Do(in *c02In) (c02Obs, error) {
-	st, err := c02Site(in.Site)
+	addr, host, tree, err := c02Target(in)
 	if err != nil {
 		return c02Obs{}, err
 	}
-	hdr := map[string]string{}
+	hdr := map[string]string{"Host": host}
 	if in.AE != "" {
 		hdr["Accept-Encoding"] = in.AE
 	}
-	if in.JSON {
-		hdr["Accept"] = "application/json"
+	if in.JSON { // browse looks for "application/json" anywhere in the lower-cased Accept header
+		hdr["Accept"] = []string{"application/json", "text/html, Application/JSON;q=0.9", "application/json, */*"}[len(in.Target)%3]
 	}
-	resp := doRaw(st.addr, in.Method, in.Target, hdr, nil)
+	resp := doRaw(addr, in.Method, in.Target, hdr, nil)
 	o := c02Obs{Status: resp.Status, BodyLen: len(resp.Body), Err: resp.Err}
 	if resp.Header != nil {
 		o.Loc = resp.Header.Get("Location")
 		o.CE = resp.Header.Get("Content-Encoding")
 		o.CT = resp.Header.Get("Content-Type")
+		o.HIDs = tree.hdrIDs(resp.Header)
+		o.Hdr = strings.TrimSpace(resp.Header.Get("Etag") + " " + resp.Header.Get("Content-Length") + " " + resp.Header.Get("Last-Modified"))
+	}
+	if in.Method == "HEAD" && resp.Header != nil {
+		// a HEAD answer must be the GET answer without its body: the same status, redirect and file
+		// headers (whatever they disclose, GET discloses). A difference counts as a header of unknown origin.
+		get := doRaw(addr, "GET", in.Target, hdr, nil)
+		diff := ""
+		if get.Status != resp.Status {
+			diff = fmt.Sprintf("status %d vs GET %d", resp.Status, get.Status)
+		} else if get.Header != nil {
+			for _, k := range []string{"Location", "Etag", "Last-Modified", "Content-Encoding", "Content-Type"} {
+				if get.Header.Get(k) != resp.Header.Get(k) {
+					diff = k + " differs from GET's"
+				}
+			}
+			if resp.Header.Get("Etag") != "" && get.Header.Get("Content-Length") != resp.Header.Get("Content-Length") {
+				diff = "Content-Length differs from GET's"
+			}
+		}
+		if diff != "" {
+			o.Note = "HEAD: " + diff
+			o.HIDs = append(o.HIDs, c02UnknownID)
+		}
 	}
 	toks := map[string]bool{}
 	body := resp.Body
@@ -557,6 +1117,7 @@ func c02Do(in *c02In) (c02Obs, error) {
 	if i := strings.Index(ct, ";"); i >= 0 {
 		ct = ct[:i]
 	}
+	names := map[string]bool{}
 	if at, ok := c02MimeToType[ct]; ok && resp.Status == 200 && in.Site != "static" && in.Method != "HEAD" {
 		members, complete := c02Unarchive(at, body)
 		o.Kind = 2
@@ -574,28 +1135,43 @@ func c02Do(in *c02In) (c02Obs, error) {
 				}
 			}
 			if name != "" {
-				o.Names = append(o.Names, name)
+				names[name] = true
 			}
 			c02Scan(m.Data, toks)
 		}
 	} else if resp.Status == 200 && in.Site != "static" && in.Method != "HEAD" {
+		// a listing: every entry is named twice, by its label and by its link
 		if ct == "application/json" {
-			var items []struct{ Name string }
+			var items []struct{ Name, URL string }
 			if json.Unmarshal(body, &items) == nil {
 				o.Kind = 1
 				for _, it := range items {
-					o.Names = append(o.Names, it.Name)
+					names[it.Name] = true
+					names[c02ItemName(it.URL)] = true
 				}
 			}
 		} else if ct == "text/html" && bytes.Contains(body, []byte(`id="filter"`)) {
 			o.Kind = 1
-			for _, m := range c02NameRe.FindAllSubmatch(body, -1) {
-				o.Names = append(o.Names, html.UnescapeString(string(m[1])))
+			for _, m := range c02RowRe.FindAllSubmatch(body, -1) {
+				names[html.UnescapeString(string(m[2]))] = true
+				names[c02ItemName(html.UnescapeString(string(m[1])))] = true
+			}
+			if bytes.Count(body, []byte(`<tr class="file">`)) != len(c02RowRe.FindAllSubmatch(body, -1)) {
+				o.Note = "listing rows not understood"
+				names["\x00unparsed-row"] = true
+			}
+			if m := c02CountRe.FindSubmatch(body); m != nil {
+				nd, _ := strconv.ParseUint(string(m[1]), 10, 64)
+				nf, _ := strconv.ParseUint(string(m[2]), 10, 64)
+				o.Counts = []uint64{nd, nf}
 			}
 		}
 	}
+	for n := range names {
+		o.Names = append(o.Names, n)
+	}
 	sort.Strings(o.Names)
-	ids := c02TokIDs()
+	ids := tree.tokIDs()
 	seen := map[uint64]bool{}
 	for t := range toks {
 		o.Toks = append(o.Toks, t)
@@ -619,6 +1195,9 @@ func c02Split(target string) (p, query string, ok bool) {
 	raw := target
 	if i := strings.Index(raw, "?"); i >= 0 {
 		raw, query = raw[:i], raw[i+1:]
+	}
+	if !strings.HasPrefix(raw, "/") { // not origin-form ("%2f…" is no leading slash): net/http answers 400
+		return "", "", false
 	}
 	var sb strings.Builder
 	hv := func(c byte) int {
@@ -703,6 +1282,15 @@ func c02MethodCode(m string) uint64 {
 	return 4
 }
 
+// c02Limit: what browse makes of the limit parameter (strconv.Atoi): bad = not a number
+func c02LimitBad(lim string) bool {
+	if lim == "" {
+		return false
+	}
+	_, err := strconv.Atoi(lim)
+	return err != nil
+}
+
 func c02Run(in0 interface{}) Result {
 	in := in0.(*c02In)
 	skip := func(class, why string) Result {
@@ -719,7 +1307,8 @@ func c02Run(in0 interface{}) Result {
 		r.Direct = "site did not start / fixture unusable: " + err.Error()
 		return r
 	}
-	if !ok || o.Status == 400 || o.Status == 0 {
+	lim := c02QueryGet(query, "limit")
+	if !ok || o.Status == 0 || (o.Status == 400 && !c02LimitBad(lim)) {
 		return Result{Term: "CSkip", Obs: o, Class: "rejected-by-net-http", Sig: "rejected-by-net-http"}
 	}
 	scope, types := c02Browse(in.Site)
@@ -727,17 +1316,70 @@ func c02Run(in0 interface{}) Result {
 	if i := strings.Index(loc, "?"); i >= 0 {
 		loc = loc[:i]
 	}
-	req := cApp("mkreq", cN(c02MethodCode(in.Method)), cStr(p), cStr(in.AE), cStr(c02QueryGet(query, "archive")))
+	req := cApp("mkreq", cN(c02MethodCode(in.Method)), cStr(p), cStr(in.AE), cStr(c02QueryGet(query, "archive")), cStr(lim))
 	fx := c02Fixture()
+	ob := cApp("mkobs", cN(uint64(o.Status)), cStr(loc), cStr(o.CE), cN(uint64(o.Kind)), cNList(o.IDs), cStrList(o.Names), cNList(o.HIDs), cNList(o.Counts))
+	class := fmt.Sprintf("%s:%s:%d:k%d", in.Site, in.Method, o.Status, o.Kind)
+	key := in.Site + "|" + in.Method + "|" + in.Target + "|" + in.AE + fmt.Sprint(in.JSON)
+	nontrivial := o.Status == 200 || o.Status/100 == 3
+	outsideTok := func(sig string) string {
+		for _, id := range append(append([]uint64{}, o.IDs...), o.HIDs...) {
+			if id == c02OutsideID || id == c02UnknownID {
+				return sig + ":token-from-outside-the-root"
+			}
+		}
+		return sig
+	}
+	if in.Site == "multi" {
+		el, _ := c02MSiteOf(in.Multi, in.Pos)
+		var roots []string
+		for _, e := range in.Multi {
+			for k := 0; k < e.keys(); k++ {
+				roots = append(roots, c02MAbsRoot(fx, e))
+			}
+		}
+		mscope, mtypes := "", []string(nil)
+		if el.Browse {
+			mscope, mtypes = "/", c02MArchiveTypes
+		}
+		// the hide list as hideCasketfile computes it for this root (for the class of the input only)
+		hide := append([]string{}, c02MInternal...)
+		absRoot, absOrigin := filepath.Clean(c02MAbsRoot(fx, el)), filepath.Join(fx.mbase, filepath.FromSlash(c02MOrigin))
+		if strings.HasPrefix(absOrigin, absRoot) {
+			hide = append(hide, strings.TrimPrefix(absOrigin, absRoot))
+		}
+		sig := c02SigOf("site", c02SubNodes(c02M.nodes(), el.Root), hide, mscope, in, p, query)
+		if !strings.HasPrefix(sig, "browse:") { // the classes of browse's known findings are the same on every site
+			sig = "multi:" + c02MRelation(el.Root) + ":" + sig
+		}
+		kb, _ := json.Marshal(in.Multi)
+		term := cApp("CMulti", cStr(fx.mbase), cStrList(roots), cStr(absOrigin), cNat(in.Pos), cStr(el.Root), cStr(mscope), cStrList(mtypes), req, ob)
+		return Result{Term: term, Obs: o, Sig: outsideTok(sig), Nontrivial: nontrivial, Key: string(kb) + fmt.Sprint(in.Pos) + "|" + key,
+			Class: fmt.Sprintf("multi:%s:%s:%d:k%d", c02MRelation(el.Root), in.Method, o.Status, o.Kind)}
+	}
+	if in.Site == "symlink" {
+		// http.Dir follows symbolic links: the lexical model does not describe this tree; the cases are
+		// judged against the executable property only
+		site := cApp("mksite_on", "stree_fs", cStr(fx.sroot), cStr(filepath.Join(fx.sroot, "Casketfile")), "gen_c02_sinternal", cStr("/"), cStr(scope), cStrList(types))
+		sig := c02SigOf("site", c02S.nodes(), append([]string{"/Casketfile"}, c02SInternal...), scope, in, p, query)
+		switch through := c02SymSig(p); {
+		case through == "link-target-outside-the-root":
+			sig = "symlink:link-target-outside-the-root"
+		case c02SymListsLinkToHidden(in, p, query):
+			sig = "symlink:listing:directory-with-link-to-hidden-file"
+		case !strings.HasPrefix(sig, "browse:"):
+			sig = "symlink:" + through + ":" + sig
+		}
+		return Result{Term: cApp("CContract", site, req, ob), Obs: o, Sig: sig, Nontrivial: nontrivial, Key: key, Class: class}
+	}
 	sitePrefix := "/"
 	if prefixSite {
 		sitePrefix = "/pre"
 	}
 	site := cApp("mksite", cStr(fx.root), cStr(filepath.Join(fx.base, c02Origin(in.Site))), cStr(sitePrefix), cStr(scope), cStrList(types))
-	ob := cApp("mkobs", cN(uint64(o.Status)), cStr(loc), cStr(o.CE), cN(uint64(o.Kind)), cNList(o.IDs), cStrList(o.Names))
 	if prefixSite {
 		sig := c02Sig(in, p, query)
-		if strings.HasPrefix(p, "//") || strings.HasPrefix(strings.TrimPrefix(c02EscapedPath(in.Target), "/pre"), "//") {
+		if (strings.HasPrefix(p, "//") || strings.HasPrefix(strings.TrimPrefix(c02EscapedPath(in.Target), "/pre"), "//")) && !strings.HasPrefix(sig, "browse:listing:") {
 			sig = "prefix-site:rest-after-prefix-starts-with-two-slashes"
 		}
 		term := cApp("CReq", site, req, ob)
@@ -746,24 +1388,81 @@ func c02Run(in0 interface{}) Result {
 			// site" (vhost matching is C01's subject); judged against the executable property only
 			term = cApp("CContract", site, req, ob)
 		}
-		return Result{Term: term, Obs: o, Sig: sig, Nontrivial: o.Status == 200 || o.Status/100 == 3,
-			Key: in.Site + "|" + in.Method + "|" + in.Target + "|" + in.AE, Class: fmt.Sprintf("%s:%s:%d:k%d", in.Site, in.Method, o.Status, o.Kind)}
+		return Result{Term: term, Obs: o, Sig: sig, Nontrivial: nontrivial,
+			Key: in.Site + "|" + in.Method + "|" + in.Target + "|" + in.AE, Class: class}
 	}
-	sig := c02Sig(in, p, query)
-	for _, id := range o.IDs {
-		if id == c02OutsideID || id == c02UnknownID {
-			sig += ":token-from-outside-the-root"
-			break
+	return Result{Term: cApp("CReq", site, req, ob), Obs: o, Sig: outsideTok(c02Sig(in, p, query)), Nontrivial: nontrivial, Key: key, Class: class}
+}
+
+// c02SubNodes: the nodes of the sub-tree at root, re-rooted.
+func c02SubNodes(nodes []c02Node, root string) []c02Node {
+	if root == "/" {
+		return nodes
+	}
+	var out []c02Node
+	for _, n := range nodes {
+		if n.Path == root {
+			out = append(out, c02Node{Path: "/", Dir: n.Dir, ID: n.ID})
+		} else if strings.HasPrefix(n.Path, root+"/") {
+			out = append(out, c02Node{Path: strings.TrimPrefix(n.Path, root), Dir: n.Dir, ID: n.ID})
 		}
 	}
-	return Result{Term: cApp("CReq", site, req, ob), Obs: o, Sig: sig, Nontrivial: o.Status == 200 || o.Status/100 == 3,
-		Key: in.Site + "|" + in.Method + "|" + in.Target + "|" + in.AE + fmt.Sprint(in.JSON), Class: fmt.Sprintf("%s:%s:%d:k%d", in.Site, in.Method, o.Status, o.Kind)}
+	return out
+}
+
+// c02SymListsLinkToHidden: a listing (HTML or JSON) of a directory of the symlink tree that has a
+// symbolic link to a hidden file as a child
+func c02SymListsLinkToHidden(in *c02In, p, query string) bool {
+	c := path.Clean("/" + p)
+	if in.Method != "GET" || !strings.HasSuffix(p, "/") || c02QueryGet(query, "archive") != "" || c02LimitBad(c02QueryGet(query, "limit")) {
+		return false
+	}
+	hidden := map[uint64]bool{}
+	nodes := c02S.nodes()
+	for _, n := range nodes {
+		if n.Path == "/Casketfile" || n.Path == "/secret.txt" {
+			hidden[n.ID] = true
+		}
+	}
+	for _, e := range c02STable {
+		if e.Kind == 'l' && path.Dir(e.Path) == c {
+			for _, n := range nodes {
+				if n.Path == e.Path && hidden[n.ID] {
+					return true
+				}
+			}
+		}
+	}
+	return false
+}
+
+// c02SymSig: does the cleaned request path go through a symbolic link, and where does that link lead
+func c02SymSig(p string) string {
+	c := path.Clean("/" + p)
+	best := "no-link"
+	for _, e := range c02STable {
+		if e.Kind != 'l' || !(c == e.Path || strings.HasPrefix(c, e.Path+"/")) {
+			continue
+		}
+		best = "link-inside-the-root"
+		for _, n := range c02S.nodes() {
+			if n.Path == e.Path && n.ID == c02OutsideID {
+				return "link-target-outside-the-root"
+			}
+		}
+	}
+	return best
 }
 
 // c02Sig is the class of the INPUT (site kind, what the cleaned path names, what is asked for).
 func c02Sig(in *c02In, p, query string) string {
+	scope, _ := c02Browse(in.Site)
+	return c02SigOf(in.Site, c02Nodes(), c02HideOf(in.Site), scope, in, p, query)
+}
+
+// c02SigOf: the same over any tree, hide list and browse scope; name is what the class calls the site.
+func c02SigOf(name string, nodes []c02Node, hide []string, scope string, in *c02In, p, query string) string {
 	c := path.Clean("/" + p)
-	nodes := c02Nodes()
 	var at *c02Node
 	for i := range nodes {
 		if nodes[i].Path == c {
@@ -771,19 +1470,18 @@ func c02Sig(in *c02In, p, query string) string {
 		}
 	}
 	hiddenID := map[uint64]bool{}
-	for _, h := range c02HideOf(in.Site) {
+	for _, h := range hide {
 		for _, n := range nodes {
 			if n.Path == path.Clean("/"+h) { // hide entries are opened through the jail
 				hiddenID[n.ID] = true
 			}
 		}
 	}
-	scope, _ := c02Browse(in.Site)
 	inScope := scope != "" && (scope == "/" || strings.HasPrefix(strings.ToLower(c), scope))
 	get := in.Method == "GET" || in.Method == "HEAD"
 	switch {
 	case at == nil:
-		return in.Site + ":no-such-file"
+		return name + ":no-such-file"
 	case at.Dir && inScope && get && !strings.HasSuffix(p, "/") && strings.HasPrefix(p, "//") && !strings.HasPrefix(p, "///"):
 		return "browse:dir-redirect:path-starts-with-two-slashes"
 	case at.Dir && inScope && get && strings.HasSuffix(p, "/") && c02QueryGet(query, "archive") != "":
@@ -793,8 +1491,16 @@ func c02Sig(in *c02In, p, query string) string {
 			}
 		}
 		return "browse:archive"
+	case at.Dir && inScope && in.Method == "GET" && strings.HasSuffix(p, "/") && !in.JSON && !c02LimitBad(c02QueryGet(query, "limit")):
+		// an HTML listing announces how many directories and files there are
+		for _, n := range nodes {
+			if path.Dir(n.Path) == c && n.Path != c && hiddenID[n.ID] {
+				return "browse:listing:html:directory-with-hidden-child"
+			}
+		}
+		return name + ":dir"
 	case at.Dir:
-		return in.Site + ":dir"
+		return name + ":dir"
 	}
 	// a file: does an accepted precompressed sibling exist that is itself hidden?
 	for _, e := range [][2]string{{"zstd", ".zst"}, {"br", ".br"}, {"gzip", ".gz"}} {
@@ -817,9 +1523,9 @@ func c02Sig(in *c02In, p, query string) string {
 		}
 	}
 	if hiddenID[at.ID] {
-		return in.Site + ":hidden-file"
+		return name + ":hidden-file"
 	}
-	return in.Site + ":file"
+	return name + ":file"
 }
 
 // ---------------------------------------------------------------------------------------------
@@ -946,6 +1652,10 @@ func c02PickMethod(r *Rand) string {
 	return "PROPFIND"
 }
 
+// values of browse's limit parameter: strconv.Atoi decides (a sign is allowed, nothing else but digits, within int64)
+var c02Limits = []string{"0", "1", "2", "3", "5", "100", "-1", "+2", "%2B3", "abc", "1e3", "2.0", "0x2", "1_0", "", "%20", "-", "+", "007",
+	"9223372036854775807", "9223372036854775808", "-9223372036854775808", "-9223372036854775809", "99999999999999999999999"}
+
 func c02PickQuery(r *Rand, site string) string {
 	types := append(append([]string{}, c02ArchiveTypes...), "rar", "ZIP", "tar.gz%20", "%7Aip", "")
 	switch k := r.Intn(100); {
@@ -955,8 +1665,10 @@ func c02PickQuery(r *Rand, site string) string {
 		return "?archive=" + r.Pick(types)
 	case k < 75:
 		return "?archive=" + r.Pick([]string{"zip", "tar.gz"})
-	case k < 90:
+	case k < 82:
 		return "?sort=" + r.Pick([]string{"name", "namedirfirst", "size", "time", "bogus"}) + "&order=" + r.Pick([]string{"asc", "desc", "x"})
+	case k < 90:
+		return "?sort=" + r.Pick([]string{"name", "namedirfirst", "size", "time"}) + "&order=" + r.Pick([]string{"asc", "desc"}) + "&limit=" + r.Pick(c02Limits)
 	case k < 95:
 		return "?sort=" + r.Pick([]string{"name", "size", "time"}) + "&order=desc&archive=" + r.Pick(types)
 	}
@@ -1089,6 +1801,52 @@ func c02Gen(r *Rand, tier string) []interface{} {
 		}
 	}
 
+	// listings in every format: HTML / JSON x sort x order x limit (the cut comes after the hidden
+	// entries are taken out), GET and HEAD
+	for _, d := range dirs {
+		t := c02Render(r, segsOf(d), true, 0)
+		for _, lim := range c02Limits {
+			if !thorough && d != "/" && d != "/hidx" && d != "/links" && !r.Chance(15) {
+				continue
+			}
+			q := "?limit=" + lim
+			if r.Bool() {
+				q = "?sort=" + r.Pick([]string{"name", "namedirfirst", "size", "time"}) + "&order=" + r.Pick([]string{"asc", "desc"}) + "&limit=" + lim
+			}
+			add(r.Pick([]string{"browse", "browse", "scoped"}), r.Pick([]string{"GET", "GET", "GET", "HEAD"}), t+q, "", r.Bool())
+		}
+	}
+	// HEAD beside GET: the headers of a HEAD answer (ETag, Content-Length, Last-Modified) describe a
+	// file just as a body does — every file and every hidden spelling, with and without siblings
+	for _, f := range files {
+		t := c02Render(r, segsOf(f), false, 0)
+		ae := r.Pick([]string{"", "gzip", "zstd, br, gzip"})
+		site := r.Pick(c02SiteKinds)
+		add(site, "HEAD", t, ae, false)
+		if thorough || r.Chance(40) {
+			add(site, "GET", t, ae, false)
+		}
+	}
+	for _, t := range []string{"/Casketfile", "/./Casketfile", "//Casketfile", "/links/hard-casket", "/secret.txt", "/hsib.txt.gz", "/hidx/index.html", "/hidx/", "/hdir/in.txt", "/hdir/",
+		"/x/../Casketfile", "/%43asketfile", "/Casketfile/", "/../outside/o.txt", "/../root.txt"} {
+		for _, site := range append(append([]string{}, c02SiteKinds...), c02OriginKinds...) {
+			add(site, "HEAD", t, r.Pick([]string{"", "gzip"}), false)
+		}
+	}
+
+	// multi-site Casketfiles
+	out = append(out, c02GenMulti(r, thorough)...)
+
+	// the symlink site (contract only)
+	for _, t := range []string{"/", "/l/", "/l", "/l/to-in", "/l/to-dir", "/l/to-dir/", "/l/to-dir/f.txt", "/l/to-casket", "/l/to-secret", "/l/to-out", "/l/to-abs", "/l/to-outdir", "/l/to-outdir/",
+		"/l/to-outdir/o.txt", "/l/dangling", "/l/plain.txt", "/l/./to-out", "/l/to-out/", "/L/to-out", "/l/?archive=zip", "/?archive=zip", "/d/?archive=zip", "/l/to-dir/?archive=zip", "/l/to-outdir/?archive=zip",
+		"/l/?sort=size&order=desc", "/l/?limit=2", "/in.txt", "/Casketfile", "/secret.txt", "/d/"} {
+		add("symlink", "GET", t, "", false)
+		if !strings.Contains(t, "?archive") {
+			add("symlink", r.Pick([]string{"HEAD", "GET"}), t, r.Pick([]string{"", "gzip"}), true)
+		}
+	}
+
 	// (3) random respellings of fixture paths and of paths aimed outside the root
 	n := 1100
 	if thorough {
@@ -1133,10 +1891,111 @@ func c02Gen(r *Rand, tier string) []interface{} {
 	return out
 }
 
+// c02GenMulti: Casketfiles of 2-3 sites in every declaration order over the root relations, on one
+// port and on several, then requests to EVERY site of each with that site's Host header.
+func c02GenMulti(r *Rand, thorough bool) []interface{} {
+	var out []interface{}
+	var confs [][]c02MEl
+	mk := func(roots ...string) []c02MEl {
+		var c []c02MEl
+		for _, root := range roots {
+			c = append(c, c02MEl{Root: root})
+		}
+		return c
+	}
+	// every ordered pair (a root may serve two sites), every ordered triple (sampled in the quick tier)
+	for _, a := range c02MRoots {
+		for _, b := range c02MRoots {
+			if a != b || a == "/www" || thorough {
+				confs = append(confs, mk(a, b))
+			}
+			for _, c := range c02MRoots {
+				if a != b && b != c && a != c && (thorough || r.Chance(12)) {
+					confs = append(confs, mk(a, b, c))
+				}
+			}
+		}
+	}
+	targets := []string{"/Casketfile", "/www/Casketfile", "/w/Casketfile", "/pub/Casketfile", "/www/pub/Casketfile", "/ww/w/Casketfile", "/links/hard-casket", "/www/links/hard-casket",
+		"/hid.txt", "/www/hid.txt", "/a.txt", "/www/a.txt", "/p.txt", "/q.txt", "/o.txt", "/top.txt", "/", "/www/", "/w/", "/links/", "/www/links/", "/pub/", "/idx/", "/other/idx/", "/ww/", "/nope"}
+	for ci, conf := range confs {
+		for i := range conf {
+			conf[i].Browse = r.Chance(70)
+			conf[i].Spell = []int{0, 0, 0, 1, 2, 3}[r.Intn(6)]
+			switch ci % 3 { // one listener for all, one per site, two sharing
+			case 1:
+				conf[i].Port = i
+			case 2:
+				conf[i].Port = i % 2
+			}
+			if r.Chance(10) {
+				conf[i].Keys = 2
+			}
+		}
+		if r.Chance(25) { // one site (and those sharing its root) without a root directive: the default root
+			k := r.Intn(len(conf))
+			for i := range conf {
+				if conf[i].Root == conf[k].Root {
+					conf[i].Spell = 4
+				}
+			}
+		}
+		nsites := 0
+		for _, e := range conf {
+			nsites += e.keys()
+		}
+		for pos := 0; pos < nsites; pos++ {
+			el, _ := c02MSiteOf(conf, pos)
+			add := func(method, target, ae string, js bool) {
+				out = append(out, &c02In{Site: "multi", Method: method, Target: target, AE: ae, JSON: js, Multi: conf, Pos: pos})
+			}
+			// where the origin is inside this root, if it is (component-wise)
+			inside := ""
+			if el.Root == "/" {
+				inside = c02MOrigin
+			} else if strings.HasPrefix(c02MOrigin, el.Root+"/") {
+				inside = strings.TrimPrefix(c02MOrigin, el.Root)
+			}
+			add("GET", "/Casketfile", "", false)
+			add("HEAD", "/Casketfile", r.Pick([]string{"", "gzip"}), false)
+			if inside != "" {
+				segs := strings.Split(strings.TrimPrefix(inside, "/"), "/")
+				add("GET", c02Render(r, c02Mutate(r, segs), false, []int{0, 15}[r.Intn(2)]), r.Pick([]string{"", "gzip"}), false)
+				add("HEAD", c02Render(r, segs, false, 0), "", false)
+				add("GET", c02Render(r, segs[:len(segs)-1], true, 0), "", r.Bool())
+				add("GET", c02Render(r, segs[:len(segs)-1], true, 0)+"?archive="+r.Pick(c02MArchiveTypes), "", false)
+			}
+			add("GET", "/", "", false)
+			add("GET", "/?sort="+r.Pick([]string{"name", "size", "time"})+"&order=desc&limit="+r.Pick([]string{"1", "2", "100"}), "", true)
+			add("GET", "/?archive="+r.Pick(c02MArchiveTypes), "", false)
+			n := 4
+			if thorough {
+				n = 10
+			}
+			for k := 0; k < n; k++ {
+				t := r.Pick(targets)
+				segs := []string(nil)
+				if t != "/" {
+					segs = strings.Split(strings.Trim(t, "/"), "/")
+				}
+				if r.Chance(40) {
+					segs = c02Mutate(r, segs)
+				}
+				target := c02Render(r, segs, strings.HasSuffix(t, "/"), []int{0, 0, 15}[r.Intn(3)])
+				if strings.HasSuffix(t, "/") && r.Chance(40) {
+					target += "?archive=" + r.Pick(c02MArchiveTypes)
+				}
+				add(r.Pick([]string{"GET", "GET", "GET", "HEAD"}), target, r.Pick([]string{"", "", "gzip"}), r.Chance(30))
+			}
+		}
+	}
+	return out
+}
+
 func init() {
 	register(&Property{
-		ID: "C02", Imports: "V.Lib V.GoPath V.Gen_C02 V.Gen_C02b V.C02_Model", Judge: "judge", Shard: 150,
-		Rule:   "real in-process sites (static; browse / with every archive type; browse /dir with zip, tar.gz; the same root under a site path prefix /pre; the origin Casketfile in a sub-directory of the root / outside it / in a sibling directory named root+x) rooted in a fixture with files, nested directories, index pages (incl. a directory named index.html and a hidden index page), .gz/.br/.zst siblings (incl. a hidden one and a directory named like one), hard links, odd names, the origin Casketfile inside the root, `internal`-hidden files and an `internal`-hidden directory, plus token files outside the root; raw request lines: exhaustive targets of depth <= 2 (3 sampled / full) over the segment alphabet {a.txt, dir, ., .., empty, %2e, %2E%2e, %2f, backslash, %5c, A.TXT, Casketfile, x} x trailing slash (static; sampled on browse with ?archive=); every directory x archive types / sort orders / JSON; open-redirect shapes (1..5 leading slashes x foreign first segment x dot-dot x directory or file-with-slash); every file x Accept-Encoding subsets and decoys; random respellings (dot segments, doubled / encoded slashes and dots, case flips, backslashes, climbing above the root, NUL) x methods x queries. Prefix-site cases are modelled like the others (the path the handlers see is computed as trimPathPrefix does); those whose path does not start with the prefix never reach the site and are judged against the executable property only (CContract). Non-trivial = answers 200 or 3xx",
+		ID: "C02", Imports: "V.Lib V.GoPath V.Gen_C02 V.Gen_C02b V.C02_Model", Judge: "judge", Shard: 285,
+		Rule:   "real in-process sites (static; browse / with every archive type; browse /dir with zip, tar.gz; the same root under a site path prefix /pre; the origin Casketfile in a sub-directory of the root / outside it / in a sibling directory named root+x) rooted in a fixture with files, nested directories, index pages (incl. a directory named index.html and a hidden index page), .gz/.br/.zst siblings (incl. a hidden one and a directory named like one), hard links, odd names, the origin Casketfile inside the root, `internal`-hidden files and an `internal`-hidden directory, plus token files outside the root; raw request lines: exhaustive targets of depth <= 2 (3 sampled / full) over the segment alphabet {a.txt, dir, ., .., empty, %2e, %2E%2e, %2f, backslash, %5c, A.TXT, Casketfile, x} x trailing slash (static; sampled on browse with ?archive=); every directory x archive types / sort orders / JSON; open-redirect shapes (1..5 leading slashes x foreign first segment x dot-dot x directory or file-with-slash); every file x Accept-Encoding subsets and decoys; random respellings (dot segments, doubled / encoded slashes and dots, case flips, backslashes, climbing above the root, NUL) x methods x queries. MULTI-SITE Casketfiles written to disk and loaded from there (2-3 sites s0/s1/s2.c02.test, every ordered pair and sampled / every ordered triple over the root relations {contains the Casketfile directly, in a sub-directory, not at all (below / beside), sibling with a string-prefix name}; one port, one per site, two sharing; root spelled cleaned / trailing slash / with /./ / with x/../ / not at all (default root); blocks with two addresses), requests to EVERY site with its Host header: the Casketfile under every name it has in that root, its directory as HTML / JSON listing and as archive, random respellings; every directory x 24 spellings of ?limit= (HTML / JSON, sort, order); HEAD beside GET for every file and every hidden spelling (the file a header describes is identified by ETag, Content-Length, Last-Modified); a site with symbolic links (judged against the executable property only). Prefix-site cases are modelled like the others (the path the handlers see is computed as trimPathPrefix does); those whose path does not start with the prefix never reach the site and are judged against the executable property only (CContract). Non-trivial = answers 200 or 3xx",
 		Gen:    c02Gen,
 		Decode: func(raw json.RawMessage) (interface{}, error) { in := &c02In{}; return in, json.Unmarshal(raw, in) },
 		Run:    c02Run,
@@ -1179,12 +2038,20 @@ func init() {
 		if len(order) == 0 {
 			return "", fmt.Errorf("ArchiveTypes not found in browse.go")
 		}
-		var nodes []string
-		for _, n := range c02Nodes() {
-			nodes = append(nodes, fmt.Sprintf("(%s, %s, %s)", cStr(n.Path), cBool(n.Dir), cN(n.ID)))
+		tree := func(t *c02Tree) string {
+			var nodes []string
+			for _, n := range t.nodes() {
+				nodes = append(nodes, fmt.Sprintf("(%s, %s, %s)", cStr(n.Path), cBool(n.Dir), cN(n.ID)))
+			}
+			return "[\n  " + strings.Join(nodes, ";\n  ") + "]"
 		}
 		return "Definition gen_archive_types : list bytes := " + cStrList(order) + ".\n" +
-			"Definition gen_c02_fixture : list (bytes * bool * N) := [\n  " + strings.Join(nodes, ";\n  ") + "].\n" +
+			"Definition gen_c02_fixture : list (bytes * bool * N) := " + tree(c02Main) + ".\n" +
+			"(* the tree of the multi-site Casketfiles (origin: " + c02MOrigin + ") and the tree of the symlink site *)\n" +
+			"Definition gen_c02_mtree : list (bytes * bool * N) := " + tree(c02M) + ".\n" +
+			"Definition gen_c02_minternal : list bytes := " + cStrList(c02MInternal) + ".\n" +
+			"Definition gen_c02_stree : list (bytes * bool * N) := " + tree(c02S) + ".\n" +
+			"Definition gen_c02_sinternal : list bytes := " + cStrList(c02SInternal) + ".\n" +
 			"Definition gen_c02_hide : list bytes := " + cStrList(c02Hide()) + ".\n" +
 			"Definition gen_c02_internal : list bytes := " + cStrList(c02Internal) + ".\n", nil
 	})
@@ -1198,6 +2065,14 @@ func init() {
 			in.AE = args[3]
 		}
 		in.JSON = len(args) > 4
+		if strings.HasPrefix(args[0], "{") { // a whole input as JSON, then method and target
+			in = &c02In{}
+			if err := json.Unmarshal([]byte(args[0]), in); err != nil {
+				fmt.Fprintln(os.Stderr, err)
+				return 2
+			}
+			in.Method, in.Target = args[1], args[2]
+		}
 		o, err := c02Do(in)
 		if err != nil {
 			fmt.Fprintln(os.Stderr, err)
@@ -1205,8 +2080,9 @@ func init() {
 		}
 		b, _ := json.Marshal(o)
 		fmt.Println(string(b))
-		p, q, _ := c02Split(in.Target)
-		fmt.Println("sig:", c02Sig(in, p, q))
+		r := c02Run(in)
+		fmt.Println("sig:", r.Sig)
+		fmt.Println("term:", r.Term)
 		os.RemoveAll(c02Fixture().base)
 		return 0
 	}
